@@ -270,6 +270,10 @@ class StmtMixin:
                         "Py.listSet {} {} {}".format(nm, iv, coerce(vc, vt, t.elem)), t, done, "l"))
                 return self.exprs([target.slice, v], env, fin_l)
             raise Unsupported("item assignment on " + t.lean())
+        # a display name given to an object under construction
+        if isinstance(target, ast.Attribute) and src(target.value) in env \
+                and isinstance(resolve(env[src(target.value)][1]), TBuilder) and self.is_erased_expr(v, env):
+            return nxt(env)
         # erased right-hand sides are not evaluated
         if self.is_erased_expr(v, env):
             env2, _ = self.assign_target(target, "()", ERASED, env)
